@@ -13,6 +13,8 @@ claimed={
    ref="DESIGN.md section 4 C19", technique="bounded symbolic execution of go/ssa over an uninterpreted block cipher, SMT (z3 5.1, cvc5 cross-check) discharge; counterexamples replayed natively"),
  "C03":dict(text="Bounded symbolic model checking of the real mode code over an uninterpreted block cipher (UF-E): generic XTS (IEEE and GB/T variants, single-block and concurrentBlocks batch paths, every byte length up to (2*batch+2) blocks+15 incl. ciphertext stealing, tweak carried across calls, in place / disjoint with canary bytes), ECB/BC/OFBNLF (block sizes 8 and 16, one call vs two calls vs textbook), HCTR (uhash layout, counter path incl. batches, encrypt/decrypt) against references written from IEEE 1619 / GB/T 17964; mul2Generic and hctrDouble are proved equal to their specifications for every input and then summarised. One known finding (HCTR tweak tail, pinned by an existing test vector) is reported as KNOWN-FINDING. Assembly kernels are outside.",
    ref="DESIGN.md section 4 C03", technique="bounded symbolic execution of go/ssa over an uninterpreted block cipher, SMT (z3 5.1, cvc5 cross-check) discharge; counterexamples replayed natively"),
+ "C17":dict(text="Bounded symbolic model checking of the real drbg code over an uninterpreted hash / block cipher: each of instantiate, Reseed and Generate of Hash_DRBG, HMAC_DRBG and CTR_DRBG (NIST and GM variants) is executed once from an ARBITRARY working state (V, C/Key symbolic, reseed counter an arbitrary uint64, elapsed time an arbitrary duration) and compared with SP 800-90A Rev.1 transcribed in the harness, so every interleaving of operations follows by induction; the reseed gate is decided symbolically (refusal iff counter > interval or, in GM mode, elapsed > time interval; refused calls leave state and buffer untouched); the byte-wise adders are proved equal to integer addition; the DrbgPrng reader is checked over an abstract generator and a scripted entropy source failing or running short at any call.",
+   ref="DESIGN.md section 4 C17", technique="bounded symbolic execution of go/ssa over uninterpreted hash/cipher, one inductive step per operation, SMT (z3 5.1, cvc5 cross-check); counterexamples replayed natively"),
 }
 NA={
  "C20":"data-race freedom over all schedules needs a concurrent execution model (threads, happens-before, sync/atomic); the go/ssa symbolic executor is sequential by construction and no Go symbolic concurrency engine is available in the image (DESIGN.md section 4 C20)",
